@@ -616,21 +616,38 @@ theorem idomT_eq (g : Digraph) (e v : Nat) :
     funext d w; exact domT_eq g e d w
   rw [this]
 
+theorem mem_preds (g : Digraph) (p y : Nat) : p ∈ g.preds y ↔ g.Edge p y := by
+  unfold Digraph.preds
+  simp only [List.mem_filter, List.mem_range, edgeB_iff]
+  exact ⟨fun h => h.2, fun h => ⟨h.1, h⟩⟩
+
+theorem predTable_getD (g : Digraph) (y : Nat) : (predTable g).getD y [] = g.preds y := by
+  unfold predTable
+  by_cases hy : y < g.n
+  · simp [Array.getD, hy]
+  · have : g.preds y = [] := by
+      apply List.eq_nil_iff_forall_not_mem.2
+      intro p hp
+      exact hy ((mem_preds g p y).1 hp).2.1
+    simp [Array.getD, hy, this]
+
 theorem dfT_eq (g : Digraph) (e x y : Nat) :
-    dfT g (domTable g e) (reachSet g none e) x y = dfB g e x y := by
+    dfT (predTable g) (domTable g e) (reachSet g none e) x y = dfB g e x y := by
   unfold dfT dfB
-  have : domT (domTable g e) (reachSet g none e) = domB g e := by
+  have h1 : domT (domTable g e) (reachSet g none e) = domB g e := by
     funext d w; exact domT_eq g e d w
-  rw [this]
+  have h2 : (fun y => (predTable g).getD y []) = g.preds := by
+    funext y; exact predTable_getD g y
+  rw [h1, h2]
 
 /-- `dfB` decides dominance-frontier membership as defined by paths -/
 theorem dfB_iff (g : Digraph) (e x y : Nat) : dfB g e x y = true ↔ InDF g e x y := by
   unfold dfB dfOf InDF
-  simp only [Bool.and_eq_true, List.any_eq_true, List.mem_range, edgeB_iff, domB_iff, Bool.not_eq_true',
+  simp only [Bool.and_eq_true, List.any_eq_true, mem_preds, domB_iff, Bool.not_eq_true',
     Bool.and_eq_false_iff]
   unfold SDom
   constructor
-  · rintro ⟨⟨p, _, he, hd⟩, h⟩
+  · rintro ⟨⟨p, he, hd⟩, h⟩
     refine ⟨⟨p, he, hd⟩, ?_⟩
     rintro ⟨h1, h2⟩
     rcases h with h | h
@@ -638,7 +655,7 @@ theorem dfB_iff (g : Digraph) (e x y : Nat) : dfB g e x y = true ↔ InDF g e x 
       rw [this] at h; cases h
     · simp at h; exact h2 h
   · rintro ⟨⟨p, he, hd⟩, h⟩
-    refine ⟨⟨p, he.1, he, hd⟩, ?_⟩
+    refine ⟨⟨p, he, hd⟩, ?_⟩
     by_cases hdy : domB g e x y = true
     · right
       have : x = y := Classical.byContradiction fun hc => h ⟨(domB_iff g e x y).1 hdy, hc⟩
